@@ -69,6 +69,7 @@ def run(ck, F, E):
     kinds(ck, F, E)
     statement_checks(ck, F)
     user_functions(ck, F)
+    fn_syntax_agreement(ck, F)
     def_recorded(ck, F)
     resolution_order(ck, F)
     jump_targets(ck, F)
@@ -119,6 +120,29 @@ def dispatch(ck, F):
                    "Token::%s: interpreter %s, analyzer %s -- a statement starting with it is accepted by one fork and "
                    "rejected by the other" % (v, e, a), nontrivial=e["explicit"])
     ck.floor("C06.explicit dispatch arms", n_explicit, 20)
+    # an arm that hands over to a parsing handler does so in both forks to handlers that parse alike: same name (after the
+    # goto/gosub merge), or -- when the names differ -- equal token-consumption skeletons.  The analyzer sending `LET` back into
+    # its dispatcher accepts `LET PRINT A`, which the interpreter's LET handler (a symbol must follow) rejects.
+    for v in sorted(ev):
+        e, a = ev[v], an.get(v)
+        if not (a and e["explicit"] and a["explicit"]) or not str(e["effect"]).startswith("evaluate_"):
+            continue
+        en, an_ = RENAME.get(e["effect"], e["effect"]), RENAME.get(a["effect"], a["effect"])
+        if en == an_:
+            continue
+        eb, ab = F.bodies.get(EV_S + "::" + e["effect"]), F.bodies.get(AN_S + "::" + str(a["effect"]))
+        same = False
+        if eb is not None and ab is not None and str(a["effect"]) != "evaluate_statement":
+            try:
+                sa = norm_skel(grammar.skeleton(eb, F=F, distinct=True), e["effect"])
+                sb = norm_skel(grammar.skeleton(ab, F=F, distinct=True), a["effect"])
+                same = same_parse(eb, ab, (), F, lambda p: False, sa, sb)
+            except Exception:
+                same = False
+        ck.require(same, "C06:DISPATCH-HANDLER:%s" % v, "dispatch agreement",
+                   "both forks hand Token::%s to handlers that consume tokens alike" % v,
+                   "Token::%s: the interpreter hands over to %s, the analyzer to %s, which does not parse the same statement -- "
+                   "lines one fork accepts are syntax errors for the other" % (v, e["effect"], a["effect"]))
     # what each analyzer arm does to the token cursor directly must be something the interpreter's arm does too
     evb = F.one("StatementEvaluator::evaluate_statement")
     anb = F.one("StatementAnalyzer::evaluate_statement")
@@ -507,6 +531,50 @@ def user_functions(ck, F):
     else:
         ck.ok("C06:KIND:def-body-unchecked", "user functions",
               "call kind by name=%s, body checked against the name=%s" % (by_name, body_checked), "", a.span)
+
+
+def fn_syntax_agreement(ck, F):
+    """The two forks parse a user-function call and a DEF header alike.  They legitimately differ in one step each: the
+    interpreter goes on to evaluate the function's body (at the DEF's location) after the argument list, the analyzer checks
+    the body expression right after the DEF header.  Apart from that trailing step the token-consumption skeletons are equal --
+    in particular the argument list is `expect(,)` between exactly as many expressions as the DEF has parameters in both."""
+    body_step = [("call", "evaluate_expression", False)]
+    for (oe, oa, fn, longer) in ((EV_E, AN_E, "evaluate_user_defined_function_call", "interpreter"),
+                                 (EV_S, AN_S, "evaluate_def_statement", "analyzer")):
+        a, b = F.bodies.get(oe + "::" + fn), F.bodies.get(oa + "::" + fn)
+        if a is None or b is None:
+            ck.missing("C06:SKEL:%s" % fn, fn + " in either fork")
+            continue
+        # private helpers of either fork are looked through (a `parse_def_argument_names` may contain the `(` in one fork and not
+        # in the other); only the recursive entry points stay as steps
+        def inline_all(path):
+            nm = path.rsplit("::", 1)[-1]
+            return any(path.startswith(o + "::") for o in (EV_E, EV_S, AN_E, AN_S)) and not nm.startswith("evaluate_expression") and \
+                nm not in ("evaluate_statement", "evaluate_statement_or_goto_line_number", "evaluate_logical_or_expression")
+
+        def loop_sorted(sk):
+            # steps of one loop body in a canonical order: `expr (, expr)*` may be written comma-last or comma-first
+            out, run_ = [], []
+            for st in list(sk) + [None]:
+                if st is not None and len(st) > 2 and st[2] is True:
+                    run_.append(st)
+                    continue
+                out += sorted(run_, key=repr)
+                run_ = []
+                if st is not None:
+                    out.append(st)
+            return out
+        try:
+            sa = loop_sorted(norm_skel(grammar.skeleton(a, F=F, distinct=True, inline=inline_all), fn))
+            sb = loop_sorted(norm_skel(grammar.skeleton(b, F=F, distinct=True, inline=inline_all), fn))
+        except Exception:
+            sa, sb = None, ()
+        lo, sh = (sa, sb) if longer == "interpreter" else (sb, sa)
+        ok = sa is not None and (sa == sb or (list(lo[:len(sh)]) == list(sh) and list(lo[len(sh):]) == body_step))
+        ck.require(ok, "C06:SKEL:%s" % fn, "skeleton agreement",
+                   "both forks consume the same tokens (the %s's extra step is the body evaluation)" % longer,
+                   "the two forks parse %s differently:\n    interpreter: %s\n    analyzer:    %s\n  calls with a wrong number of "
+                   "arguments (or malformed DEF headers) are accepted by one fork and rejected by the other" % (fn, sa, sb), b.span)
 
 
 def def_recorded(ck, F):
